@@ -8,16 +8,19 @@
    Model property:  sections/keys/values of Parse(Render(g)) = those of Meaning(f), no error.
    Exported expectation for the library: Meaning(f)  (the file WITHOUT the comment lines).   *)
 EXTENDS Pools, TLC, Json, SequencesExt
-CONSTANTS MaxLines, MaxIns, Export, ExportMaxIns
+CONSTANTS MaxLines, MaxIns, Export, ExportMaxIns,
+          Opt            \* "none" | "python" | "join": the parsing option in force (a comment line is inert under every option)
 VARIABLES par, f, g, ins, phase
 vars == <<par, f, g, ins, phase>>
 
-Pars == ParsFor("none")
+Pars == ParsFor(Opt)
 
 BasePool(p) ==
   LET D == p.delim  s1 == Sep1(D) IN
   {BlankL(E), HeaderL(E, <<83>>, E)}
   \cup (IF Class(D) = "NONE" THEN {KeyOnlyL(E, a, E), KeyOnlyL(sp, b, E)}
+        ELSE IF p.python \/ p.join
+        THEN {EntryL(E, a, s1, v, FALSE, E, E, E), EntryL(E, b, s1, E, FALSE, E, E, E), EntryL(E, a, s1, v \o sp \o w, FALSE, sp, E, E)}
         ELSE {EntryL(E, a, s1, v, FALSE, E, E, E), EntryL(E, b, s1, E, FALSE, E, E, E),
               EntryL(sp, a, s1, sp \o v \o sp, TRUE, sp, E, E), EntryL(E, b, s1, v \o sp \o w, FALSE, E, <<p.comment[1]>>, cc)})
 
@@ -60,12 +63,13 @@ Spec == Init /\ [][Next]_vars
 
 KV(o) == IF o.rc # "ECONF_SUCCESS" THEN o
          ELSE [rc |-> o.rc, groups |-> o.groups,
-               ents |-> [i \in 1..Len(o.ents) |-> [g |-> o.ents[i].g, k |-> o.ents[i].k, v |-> o.ents[i].v]]]
+               ents |-> [i \in 1..Len(o.ents) |-> [g |-> o.ents[i].g, k |-> o.ents[i].k,
+                                                   v |-> IF par.join THEN <<>> ELSE o.ents[i].v, vals |-> o.ents[i].vals]]]
 \* the property on the model
 CommentInert == KV(Obs(ParseFile(Render(g), par))) = KV(Meaning(f, par))
 
 Feats == UNION {ins[i].feat : i \in 1..Len(ins)}
-Case == [delim |-> par.delim, comment |-> par.comment, python |-> FALSE, lines |-> Render(g),
+Case == [delim |-> par.delim, comment |-> par.comment, python |-> par.python, join |-> par.join, lines |-> Render(g),
          kinds |-> [i \in 1..Len(g) |-> g[i].t], exp |-> Meaning(f, par), cbx |-> <<>>,
          ins |-> [i \in 1..Len(ins) |-> [pos |-> ins[i].pos, feat |-> SetToSeq(ins[i].feat)]],
          nontrivial |-> Feats # {}]
